@@ -38,11 +38,25 @@ pub fn measure_ctx(c: &Ctx, known: Size<Option<f32>>, avail: Size<AvailableSpace
     }
 }
 
+thread_local! {
+    /// what the measure function answers for a childless node WITHOUT a context (default: zero, as the Lean model's `measureOf`).
+    /// The C17 stream sets it to a non-zero size in a share of its cases: `compute_layout_with_measure` documents that the measure
+    /// function is called for every leaf, with `None` when the node has no context, and may size it from the NodeId or the style
+    /// (seeded change C17-3 skipped the call for context-less leaves).
+    static NOCTX_SIZE: std::cell::Cell<Size<f32>> = const { std::cell::Cell::new(Size::ZERO) };
+}
+pub fn set_noctx_size(s: Size<f32>) {
+    NOCTX_SIZE.with(|c| c.set(s));
+}
+pub fn noctx_size() -> Size<f32> {
+    NOCTX_SIZE.with(|c| c.get())
+}
+
 /// the measure function handed to `compute_layout_with_measure`
 pub fn measure(known: Size<Option<f32>>, avail: Size<AvailableSpace>, ctx: Option<&mut Ctx>) -> Size<f32> {
     match ctx {
         Some(c) => measure_ctx(c, known, avail),
-        None => Size::ZERO,
+        None => noctx_size(),
     }
 }
 
